@@ -256,6 +256,21 @@ pub fn run(ctx: &Ctx) -> Report {
     let n = sc.len();
     let st = scen_batch(ctx, sc, &[Policy::P0, Policy::P1], j);
     rep.part("mapping scenarios", st, serde_json::json!({"scenarios": n}));
+    // the mapping must not depend on the schedule either: every execution with <= d deviations (pre-emptions, and
+    // timed waits expiring first) on a small tree, one and two workers
+    {
+        let mut jobs = vec![];
+        for d in drivers() {
+            for w in [1u32, 2] {
+                let s = std::sync::Arc::new(sets::s1_driver(d, w));
+                for b in [RunSpec::base(Policy::P0), RunSpec::base(Policy::P1), RunSpec::base(Policy::P2)] {
+                    jobs.push((s.clone(), b, if ctx.quick() { 1usize } else { 2 }));
+                }
+            }
+        }
+        let st = crate::explore::explore(&ctx.pool, jobs, j);
+        rep.part("schedule search on a small tree, workers {1,2}, base policies P0 / P1 / P2", st, serde_json::json!({"d": if ctx.quick() { 1 } else { 2 }}));
+    }
     rep.assumptions = vec!["out of the alphabet because the property does not define the outcome: two sources mapping onto the same path, sources spelled . or .., a destination inside a source".into()];
     rep
 }
